@@ -10,7 +10,7 @@ class Stuck(Exception):
     pass
 
 
-LINK_LEAVES = ("next", "next_free", "next_chunk", "next_entry")
+LINK_LEAVES = ("next", "next_free", "next_chunk", "next_entry", "_next")
 
 
 class ListWalk:
@@ -20,10 +20,14 @@ class ListWalk:
         self.links = link_leaves
         self.head_field = head_field
         self.env = {}
+        self.freed = set()          # nodes released so far (filled by the caller's on_event hook)
+        self.read_after_free = []   # link reads through a released node
 
     def nxt(self, i):
         if not isinstance(i, int) or i <= 0:
             raise Stuck("link read through null / unknown pointer")
+        if i in self.freed:
+            self.read_after_free.append(i)
         return i + 1 if i < self.n else 0
 
     def ev(self, nid, depth=0):
@@ -84,7 +88,7 @@ class ListWalk:
                 return int((self.ev(c[-2], depth + 1) == self.ev(c[-1], depth + 1)) == (leaf == "operator=="))
         raise Stuck("cannot evaluate %s" % fn.expr(nid)[:70])
 
-    def run(self, stop, max_steps=400):
+    def run(self, stop, max_steps=400, on_event=None):
         """interpret from the entry until an event for which stop(fn, nid) holds; returns that event (env is left in self.env) or None if
         the function returned first"""
         fn = self.fn
@@ -99,6 +103,8 @@ class ListWalk:
                 n = fn.nodes[e]
                 if stop(fn, e):
                     return e
+                if on_event is not None:
+                    on_event(self, e)
                 if n["k"] == "decl":
                     for v in n["vars"]:
                         if "init" in v:
